@@ -219,10 +219,15 @@ def run(tier):
     # R4-R6 number printing
     import numfmt
     numfmt.rules(fx, ck, lambda g: g.file.endswith(("src/value.rs", "builtins/number.rs")))
+    numfmt.to_string_rule(fx, ck, lambda g: g.file.startswith(("src/compiler", "src/interpreter", "src/value.rs")))
     numfmt.cast_rule(fx, ck, lambda g: g.file.endswith(("src/value.rs", "builtins/number.rs")))
     ckc = Check("C15", tier, "", [])
     numfmt.rules(F.load_fixture(), ckc, lambda g: g.path.startswith("c15::print"), printer_root="c15::print::number_to_string", pre="ctl:")
     numfmt.cast_rule(F.load_fixture(), ckc, lambda g: g.path.startswith("c15::print"), printer_root="c15::print::number_to_string", pre="ctl:")
+    nts = numfmt.to_string_rule(F.load_fixture(), ckc, lambda g: g.path.startswith("c15::print"), printer_root="c15::print::number_to_string")
+    ts = sorted(fd[1] for fd in ckc.findings if fd[1].endswith("/to_string"))
+    if ts != ["R5.one-printer/c15::print::third_printer/to_string"] or nts != 1:
+        ck.closed_fail.append("R5 to_string control failed: fixture reports %s over %d f64 sites (want third_printer only)" % (ts, nts))
     gotc = {fd[0] for fd in ckc.findings}
     if any("guarded_int" in fd[1] for fd in ckc.findings):
         ck.closed_fail.append("R4b control failed: the range-guarded cast of the fixture was reported")
